@@ -7,7 +7,9 @@ EXTENDS BenchOps, TLC, Json, IOUtils
 Traces == JsonDeserialize(IOEnv.TRACE_FILE)
 VARIABLES tid, l
 Ev == Traces[tid][l]
-Clause(name, b) == IF b THEN TRUE ELSE PrintT(<<"FAIL", tid, l, name>>) /\ FALSE
+\* diagnostic mode (ALLCLAUSES = "1", trace-mutation self-test only): a failing clause is reported and evaluation goes on, so that clauses
+\* shadowed by an earlier one in the same conjunction are exercised too; in every registered check ALLCLAUSES = "0"
+Clause(name, b) == IF b THEN TRUE ELSE PrintT(<<"FAIL", tid, l, name>>) /\ (IOEnv.ALLCLAUSES = "1")
 AbsV(x) == IF x < 0 THEN -x ELSE x
 PointEv(e) ==
     /\ Clause("no-exception", e.exc = "")
